@@ -26,3 +26,32 @@ func (h *Hub) VerifRegistry() map[string]api.ShipConnectionInterface {
 	}
 	return result
 }
+
+// Read-only view of the per SKI dial bookkeeping: the keys of the attempt counter map and
+// the keys whose attempt-running flag is set.
+func (h *Hub) VerifAttemptState() (counters []string, running []string) {
+	h.muxConAttempt.Lock()
+	defer h.muxConAttempt.Unlock()
+
+	for ski := range h.connectionAttemptCounter {
+		counters = append(counters, ski)
+	}
+	for ski, on := range h.connectionAttemptRunning {
+		if on {
+			running = append(running, ski)
+		}
+	}
+	return counters, running
+}
+
+// Read-only view of the keys of the remote service records.
+func (h *Hub) VerifServiceKeys() []string {
+	h.muxReg.Lock()
+	defer h.muxReg.Unlock()
+
+	keys := make([]string, 0, len(h.remoteServices))
+	for ski := range h.remoteServices {
+		keys = append(keys, ski)
+	}
+	return keys
+}
